@@ -1,4 +1,10 @@
 // Child module of vhost::vhost_user::gpu_backend_req (the vhost-user-gpu proxy `GpuBackend`).
+// NOT covered: the reply-bearing GPU operations (get_protocol_features, get_display_info, get_edid,
+// update_dmabuf_scanout).  Their receive path turns every vhost_user::Error into
+// io::Error::other(format!(..)) inside BackendInternal::recv_reply; the boxed custom error makes io::Error's
+// bit-packed representation opaque to CBMC and the run exhausts memory (14 GB and 40 GB tried); the closure
+// returned by io_err_convert_fn cannot be stubbed (opaque return type), io::Error::other cannot be named in
+// kani::stub.  display_info / edid / cursor_update also exceed the ghost wire bounds (408 / 1056 / 16384 bytes).
 // C01 (GPU channel encoding: header flags carry no version bits, only REPLY on replies),
 // C06 (reply parsing), C10 (lock across request + reply).
 use super::*;
@@ -180,19 +186,9 @@ macro_rules! e_gp {
     };
 }
 
-// @harness props=C01,C06,C10,C03 tier=quick reach=off timeout=500 bound="GpuBackend::get_protocol_features: conformant reply, value and 0..=1 descriptors symbolic" stubs="raw_recvmsg/raw_sendmsg (+lock probe), close, OwnedFd::drop, handle_alloc_error, fmt::format"
-e_gp!(e_gp_get_protocol_features, 1, 0);
-// @harness props=C06 tier=quick reach=off timeout=500 bound="GpuBackend::get_protocol_features answered with another request's code" stubs="raw_recvmsg/raw_sendmsg (+lock probe), close, OwnedFd::drop, handle_alloc_error, fmt::format"
-e_gp!(e_gp_get_protocol_features_foreign, 1, 1);
-// @harness props=C06 tier=thorough reach=off timeout=500 bound="GpuBackend::get_protocol_features answered without the REPLY flag" stubs="raw_recvmsg/raw_sendmsg (+lock probe), close, OwnedFd::drop, handle_alloc_error, fmt::format"
-e_gp!(e_gp_get_protocol_features_noreply, 1, 2);
-// @harness props=C06 tier=thorough reach=off timeout=500 bound="GpuBackend::get_protocol_features answered with an undefined flag bit" stubs="raw_recvmsg/raw_sendmsg (+lock probe), close, OwnedFd::drop, handle_alloc_error, fmt::format"
-e_gp!(e_gp_get_protocol_features_badflag, 1, 3);
-// @harness props=C01,C06,C10 tier=quick reach=off timeout=500 bound="GpuBackend::update_dmabuf_scanout (empty ack reply): all five u32 fields" stubs="raw_recvmsg/raw_sendmsg (+lock probe), close, OwnedFd::drop, handle_alloc_error, fmt::format"
-e_gp!(e_gp_dmabuf_update, 10, 0);
 // @harness props=C01,C10 tier=thorough reach=off timeout=500 bound="GpuBackend::set_protocol_features: all u64" stubs="raw_recvmsg/raw_sendmsg (+lock probe), close, OwnedFd::drop, handle_alloc_error, fmt::format"
 e_gp!(e_gp_set_protocol_features, 2, 0);
-// @harness props=C01,C10 tier=thorough reach=off timeout=500 bound="GpuBackend::set_scanout: all fields" stubs="raw_recvmsg/raw_sendmsg (+lock probe), close, OwnedFd::drop, handle_alloc_error, fmt::format"
+// @harness props=C01,C10 tier=quick reach=off timeout=500 bound="GpuBackend::set_scanout: all fields" stubs="raw_recvmsg/raw_sendmsg (+lock probe), close, OwnedFd::drop, handle_alloc_error, fmt::format"
 e_gp!(e_gp_scanout, 7, 0);
 // @harness props=C01,C10 tier=thorough reach=off timeout=500 bound="GpuBackend::cursor_pos: all fields" stubs="raw_recvmsg/raw_sendmsg (+lock probe), close, OwnedFd::drop, handle_alloc_error, fmt::format"
 e_gp!(e_gp_cursor_pos, 4, 0);
